@@ -57,6 +57,13 @@ NAMED = [
     ("nested-literal-header-on-next-line", "k:\n  |-\n   a: b\n", {"k": "a: b"}),
     ("seq-literal-with-colon", "- |-\n  a: b\n- >-\n  c: d\n", ["a: b", "c: d"]),
     ("root-literal-then-document", "|-\n  a: b\n---\nx: 1\n", ["a: b", {"x": 1}]),
+    # markers that end the stream without a line break after them
+    ("plain-root-then-end-marker-at-eof", "hello\n...", "hello"),
+    ("int-root-then-end-marker-at-eof", "--- 42\n...", 42),
+    ("two-scalar-documents-marker-at-eof-then-document", "--- a\n--- b\n...", ["a", "b"]),
+    ("map-root-then-end-marker-at-eof", "a: 1\n...", {"a": 1}),
+    ("quoted-root-then-end-marker-at-eof", "'x'\n...", "x"),
+    ("multi-line-plain-root-then-marker-at-eof", "one\n two\n...", "one two"),
 ] + _deep_named()
 
 
@@ -102,6 +109,7 @@ def rule_load(progs, tier, name="YAMLLOAD", n_quick=160, n_thorough=1500):
         flip = 0
         crashed = False
         items = [(nm, text, [exp_] if not (isinstance(exp_, list) and nm.endswith("-then-document")) else exp_) for nm, text, exp_ in NAMED] + fam
+        # CR / CRLF variants only where the text has a break to vary
         for seed, text, docs in items:
             variants = [("lf", text)]
             if isinstance(seed, str):
